@@ -35,7 +35,7 @@ if exe is None:
 work = ck.mkscratch()
 res = os.path.join(work, "out.json")
 if ck.thorough():
-    n_in, n_par, n_var, extra = 20000, 1500, 160, ["-allruns"]
+    n_in, n_par, n_var, extra = 10000, 1000, 80, ["-allruns"]
 else:
     n_in, n_par, n_var, extra = 2000, 200, 20, []
 env = dict(GOENV)
